@@ -1,4 +1,5 @@
 import Rain.Lsm
+import Rain.Generated.Constants
 /-
 Model of the SEEK CHARGING that drives seek-triggered compactions:
 `versioning/version.rs` (`Version::get` as far as `SeekChargeMetadata` is concerned,
@@ -107,6 +108,13 @@ def updateStats (s : SeekState) (charge : Option (Nat × File)) : SeekState × B
       ({ allowed := allowed', toCompact := some (f.num, l) }, true)
     else
       ({ allowed := allowed', toCompact := s.toCompact }, false)
+
+/-- `FileMetadata::set_file_size`: the seek budget a table file starts with (one seek per
+`SEEK_DATA_SIZE_THRESHOLD_KIB` bytes, at least `MIN_ALLOWED_SEEKS`; the `i64::try_from` of the code
+cannot fail for a quotient of a `u64` by 16384); both constants are regenerated from the sources -/
+def initialAllowed (size : Nat) : Int :=
+  let a : Int := (size / Rain.Gen.SEEK_DATA_SIZE_THRESHOLD : Nat)
+  if a < (Rain.Gen.MIN_ALLOWED_SEEKS : Nat) then (Rain.Gen.MIN_ALLOWED_SEEKS : Nat) else a
 
 /-- a read that may charge a file of the current version -/
 inductive Read where
